@@ -236,7 +236,7 @@ MUTANTS = [
  dict(id="C20", name="apropos_first_prefix_wins", edits=[(PC, '    for(const Port &port: ports)\n        if(*path && rtosc_match_path(port.name, path, NULL))\n            return &port;\n', '    for(const Port &port: ports)\n        if(*path && (strstr(port.name, path)==port.name ||\n                    rtosc_match_path(port.name, path, NULL)))\n            return &port;\n')]),
  dict(id="C12", name="apropos_first_prefix_wins", edits=[(PC, '    for(const Port &port: ports)\n        if(*path && rtosc_match_path(port.name, path, NULL))\n            return &port;\n', '    for(const Port &port: ports)\n        if(*path && (strstr(port.name, path)==port.name ||\n                    rtosc_match_path(port.name, path, NULL)))\n            return &port;\n')]),
  dict(id="C13", name="depends_list_empty_entry_scanned", edits=[(SF, "                    if(!*enabled_by) // rDepends() ends its list with a ','\n                        break;\n", "")]),
- dict(id="C13", name="self_enabled_by_ignored", edits=[(SF, "        if(!is_leaf_level && port && port->ports)\n", "        if(false && port && port->ports)\n")]),
+ dict(id="C13", name="self_enabled_by_ignored", edits=[(SF, "        if(!is_leaf_level && port && port->ports)\n            self_edge(", "        if(false && port && port->ports)\n            self_edge(")]),
  dict(id="C15", name="set_message_in_a_256_byte_buffer", edits=[(UH, "    std::vector<char> res(rtosc_amessage(NULL, 0, addr, types, &arg));\n", "    std::vector<char> res(256);\n")]),
  dict(id="C15", name="old_value_sent_with_the_new_values_type", edits=[(UH, "    const char  types[2] = {rtosc_type(msg, arg_idx), 0};\n", "    const char  types[2] = {rtosc_type(msg, 2), 0};\n")]),
  dict(id="C02", name="size_summed_in_32_bits", edits=[(RC, "    size_t pos = 0; //(the sum can exceed 32 bits: blobs need no data)\n", "    unsigned pos = 0;\n")]),
@@ -253,11 +253,12 @@ MUTANTS = [
  dict(id="C12", name="format_keywords_saved_as_bare_symbols", edits=[(PC, "        if(!strcmp(val, reserved[r]))\n            val = NULL;", "        if(false)\n            val = NULL;")]),
  dict(id="C06", name="bundle_written_without_its_zero_word", edits=[(TL, "        ring_write(ring,msg,len+tail);", "        ring_write(ring,msg,len);")]),
  dict(id="C06", name="bundle_read_without_its_zero_word", edits=[(TL, "    ring_read(ring, read_buffer, len+tail, lookahead);", "    ring_read(ring, read_buffer, len, lookahead);")]),
- dict(id="C13", name="self_enabler_scanned_from_itself", edits=[(SF, "            if(enabled_by && abs != orig_portname && abs != scanned_port)\n", "            if(enabled_by && abs != orig_portname)\n")]),
+ dict(id="C13", name="self_enabler_scanned_from_itself", edits=[(SF, "        if(enabled_by && abs != orig_portname && abs != scanned_port)\n", "        if(enabled_by && abs != orig_portname)\n")]),
  dict(id="C12", name="enabling_port_walked_three_characters_in", edits=[(PC, "                                               + (relative_to_parent ? 3 : 0);", "                                               + 3;")]),
  dict(id="C13", name="array_name_completed_to_longer_sibling", edits=[(PC, "           port.name[path_len] == '#')\n            return &port;", "           port.name[path_len] == '#' && false)\n            return &port;")]),
  dict(id="C12", name="hashed_guess_verified_by_prefix", edits=[(PC, "               msg[fixed[i].length()])\n                return false;", "               msg[fixed[i].length()] && false)\n                return false;")]),
  dict(id="C03", name="callbackless_port_called", edits=[(PC, "d.port = &port, (port.cb ? port.cb(m,d) : (void)0), d.obj = obj;", "d.port = &port, port.cb(m,d), d.obj = obj;")]),
  dict(id="C15", name="merged_event_in_a_buffer_of_the_new_events_size", edits=[(UH, "            const size_t N = rtosc_amessage(NULL, 0, msg, types, args);\n", "            const size_t N = rtosc_message_length(msg, -1);\n")]),
  dict(id="C14", name="bound_narrowed_before_comparison", edits=[(PS, "    if(prop[\"max\"] && var > convert(prop[\"max\"])) \\\n", "    if(prop[\"max\"] && var > (decltype(var)) convert(prop[\"max\"])) \\\n")]),
+ dict(id="C13", name="root_self_enabler_ignored", edits=[(SF, "    self_edge(ports, \"/\");\n", "")]),
 ]
